@@ -177,6 +177,18 @@ static void failed_parses(uint32_t k) {
     } catch (const exception&) {
     }
   }
+  // ... and failures deep inside nested containers (700 unclosed brackets; 400 levels of {"k":[ then a bad token):
+  // whatever bookkeeping the parser does per level must be undone when it gives up
+  static const string deep1(700, '[');
+  static const string deep2 = [] {
+    string t;
+    for (int i = 0; i < 400; i++) t += "{\"k\":[";
+    return t + "tru";
+  }();
+  try {
+    JSON::parse(k % 2 ? deep1 : deep2, k % 4 == 1);
+  } catch (const exception&) {
+  }
 }
 static void rt_event(const JSON& tree, uint32_t opts) {
   if (opts % 3 == 1) failed_parses(opts);
@@ -546,7 +558,9 @@ int main(int argc, char** argv) {
              "1e400", "-1e400", "99999999999999999999", "-99999999999999999999", "0x10", "-0x10", "0xG", "[0x]", "/**/1", "1 /* c */"})
       docs.push_back({"mut", t});
     for (const char* t : {"{\"one\":1, }", "{\n \"one\": 1,\n}", "[1, ]", "[1,\n// c\n]", "{\"a\":[1,],}", "{\"a\":[1, ], }", "[[1,\t],\r\n]", "{\"a\":{\"b\":n,// x\n},}",
-             "[ // c\n]", "{ // c\n}", "[1 // c\n,2]", "{\"a\" // c\n:1}", "{\"a\": // c\n1}", "[0x1F ,]", "[t , f , n ,]"})
+             "[ // c\n]", "{ // c\n}", "[1 // c\n,2]", "{\"a\" // c\n:1}", "{\"a\": // c\n1}", "[0x1F ,]", "[t , f , n ,]",
+             // comments that END WITH THE INPUT (no newline, possibly no body at all), and empty comments inside
+             "1 //", "[1,2] //", "{\"a\":1}\n//", "true//", "[1,2]//x", "\"s\" // c", "[1, //\n2]", "[//\n]", "{//\n\"a\"://\n1//\n}//"})
       docs.push_back({"ext", t});
     for (const char* t : {"[1, 2] /", "17 /", "\"abc\\", "\"\\u00", "[1,", "{\"a\":", "-", "0x", "tru", "[1 // c", "//", "/"}) docs.push_back({"mut", t});
     for (size_t i = 0; i < docs.size(); i++) {
